@@ -46,6 +46,37 @@ impl Checker for C06 {
     fn step(&mut self, cx: &StepCx, out: &mut CaseResult) {
         let (o0, o1, step) = (cx.o0, cx.o1, cx.step);
         let name = step.rop.name();
+        // ---- recognition happens first: a pricing transaction books the synced view, then applies its own delta
+        if step.ok() && !step.rop.is_env() && o0.delegated > 0 && o0.books() > 0 {
+            let (vb0, vs0) = (o0.state.total_bond_bsei_amount.u128(), o0.state.total_bond_stsei_amount.u128());
+            let (vb1, vs1) = (o1.state.total_bond_bsei_amount.u128(), o1.state.total_bond_stsei_amount.u128());
+            let rebonded: u128 = execs_to(step.evs(), HUB)
+                .iter()
+                .filter(|(_, m, _)| m.starts_with("{\"bond_rewards\""))
+                .map(|(_, _, f)| f.iter().filter(|c| c.denom == USEI).map(|c| c.amount.u128()).sum::<u128>())
+                .sum();
+            let expected: Option<(u128, u128)> = match &step.rop {
+                ROp::Bond { st: false, amount, .. } => Some((vb0 + amount, vs0)),
+                ROp::Bond { st: true, amount, .. } => Some((vb0, vs0 + amount)),
+                ROp::CheckSlashing { .. } | ROp::BurnFrom { .. } => Some((vb0, vs0)),
+                ROp::UpdateIndex { .. } | ROp::RemoveVal { .. } | ROp::Redelegations { .. } => Some((vb0, vs0 + rebonded)),
+                ROp::Hook { convert: false, .. } if o1.history.len() == o0.history.len() => Some((vb0, vs0)),
+                _ => None,
+            };
+            if let Some((eb, es)) = expected {
+                if o1.delegated > 0 && (vb1, vs1) != (eb, es) {
+                    out.fail(v(
+                        &format!("recognition-then-delta/{}", name),
+                        format!("{}: the synced view before was {} / {}, so the books after must be {} / {} (re-bonded {}), but are {} / {}", step.desc(), vb0, vs0, eb, es, rebonded, vb1, vs1),
+                    ));
+                    return;
+                }
+                if rebonded > 0 && self.rec != (vb0, vs0) {
+                    self.nontrivial = true;
+                    out.label("bond_rewards_with_pending_slash");
+                }
+            }
+        }
         // ---- a successful pricing transaction stores the recognised totals
         if step.ok() && !step.rop.is_env() && has_hub_pricing_exec(step.evs()) {
             self.rec = (o1.state.total_bond_bsei_amount.u128(), o1.state.total_bond_stsei_amount.u128());
